@@ -23,7 +23,7 @@ import bbgen  # noqa: E402
 import m17ref  # noqa: E402
 
 PROPERTY = "C07"
-CONSTS = ["app"]
+CONSTS = ["app", "golay", "callsign"]
 COQ_TARGETS = ["Properties_C07.vo", "Extract_C07.vo"]
 PROPERTIES_FILE = "Properties_C07.v"
 LEVEL = "proof"
